@@ -1,4 +1,4 @@
 From Coq Require Import Extraction ExtrOcamlBasic.
-From AC Require Import Base.Sexp Model.Prune.
-Definition dispatch := run_prune.
+From AC Require Import Base.Sexp Model.Prune Model.PruneDoc.
+Definition dispatch := run_prune_doc.
 Extraction "model.ml" dispatch.
